@@ -86,11 +86,19 @@ type codecCase struct {
 	O         *aOrg                  `json:"o"`
 	Lines     []string               `json:"lines"`
 	Gs        []aGenome              `json:"gs"`
+	Sps       [][]aSpOrg             `json:"sps"`
+	Order     []int                  `json:"order"`
 	E         *aExp                  `json:"e"`
 	Other     *aExp                  `json:"other"`
 	Stream    []streamTok            `json:"stream"`
 	Ftable    []fsym                 `json:"ftable"`
 	Acts      []string               `json:"acts"`
+}
+
+type aSpOrg struct {
+	G   aGenome `json:"g"`
+	Fit int     `json:"fit"`
+	Win bool    `json:"win"`
 }
 
 type failure struct{ what, sig string }
@@ -260,6 +268,8 @@ func runCase(c *codecCase, tb table, res *result) (interesting bool) {
 		}
 		popRoundTrip(gs, c.Lines, tb, res)
 		return interesting && len(gs) > 1
+	case "popsp":
+		return bySpeciesCase(c, tb, res)
 	case "exp":
 		return expCase(c, tb, res)
 	}
@@ -635,6 +645,84 @@ func popRoundTrip(gs []*genetics.Genome, spec []string, tb table, res *result) {
 			return
 		}
 	}
+}
+
+// bySpeciesCase: Population.WriteBySpecies of a population with the given species (organisms with distinct fitness ranks,
+// some of them winners) -> ReadPopulation restores the genomes, each species' best organism first (Codec.tla 3b).
+func bySpeciesCase(c *codecCase, tb table, res *result) (interesting bool) {
+	pop := genetics.VerifNewEmptyPopulation()
+	byId := map[int]*genetics.Genome{}
+	for si, sp := range c.Sps {
+		s := genetics.NewSpecies(si + 1)
+		s.Age = 2 + si
+		for _, ao := range sp {
+			g := build(&ao.G, tb)
+			// fitness values that differ in the last places only (equal under the %.3f of the comment line), errors far out
+			o, _ := genetics.NewOrganism(1.0+float64(ao.Fit)*1e-7, g, 1)
+			o.IsWinner = ao.Win
+			o.Error = []float64{0, -1e300, 1e21, 0.0005}[ao.Fit%4]
+			o.Species = s
+			s.Organisms = append(s.Organisms, o)
+			pop.Organisms = append(pop.Organisms, o)
+			byId[g.Id] = g
+			interesting = interesting || ao.Win
+		}
+		pop.Species = append(pop.Species, s)
+	}
+	var buf bytes.Buffer
+	res.evals++
+	if err := pop.WriteBySpecies(&buf); err != nil {
+		res.fail("codec/population/write", "Population.WriteBySpecies failed: %v", err)
+		return
+	}
+	text := buf.String()
+	// token comparison on what is not a comment (comment text is free); the number of comment lines is compared as well
+	strip := func(lines []string) (out []string, comments int) {
+		for _, l := range lines {
+			if strings.HasPrefix(l, "/*") {
+				comments++
+			} else {
+				out = append(out, l)
+			}
+		}
+		return
+	}
+	specBody, specComments := strip(c.Lines)
+	realBody, realComments := strip(splitLines(text))
+	if specComments != realComments {
+		res.div("population by species: writer emitted %d comment lines, the specification %d", realComments, specComments)
+	}
+	cmpTokens("population by species", specBody, strings.Join(realBody, "\n")+"\n", tb, res)
+	var back *genetics.Population
+	var err error
+	if pn := vhu.Guard(func() { back, err = genetics.ReadPopulation(strings.NewReader(text), vhu.BaseOptions(len(pop.Organisms))) }); pn != "" {
+		res.fail("codec/population/read", "ReadPopulation panics on what Population.WriteBySpecies wrote (winner organisms: %v): %s", interesting, pn)
+		return
+	}
+	if err != nil {
+		res.fail("codec/population/read", "ReadPopulation rejects what Population.WriteBySpecies wrote (winner organisms: %v): %v", interesting, err)
+		return
+	}
+	if len(back.Organisms) != len(c.Order) {
+		res.fail("codec/population/roundtrip", "ReadPopulation restored %d genomes of the %d written by species", len(back.Organisms), len(c.Order))
+		return
+	}
+	for i, id := range c.Order {
+		b := back.Organisms[i].Genotype
+		if b.Id != id {
+			res.div("population by species: genome %d read back at position %d, the specification has %d there", b.Id, i, id)
+		}
+		orig, ok := byId[b.Id]
+		if !ok {
+			res.fail("codec/population/roundtrip", "a genome with id %d was read back, none was written", b.Id)
+			return
+		}
+		if d := diffGenomes(project(orig, false), project(b, false), true); len(d) > 0 {
+			res.fail("codec/population/roundtrip", "population written by species does not restore genome %d: %s", b.Id, strings.Join(d, "; "))
+			return
+		}
+	}
+	return interesting
 }
 
 func fnum(x float64) string {
